@@ -238,18 +238,25 @@ func uninterp[T any](name string, args ...any) T { var z T; return z }
 //@ requires arraySize >= 0
 //@ modifies exec.lastGeneratedObjectID
 //@ ensures [C05] class: r2 != nil ==> errIs(r2, ErrExecution) || errIs(r2, ErrInvalid)
-//@ ensures [C08] silent-ok: true
 //@ ensures [C14 C07] bounds: r2 == nil ==> 0 <= r0 && r1 < arraySize
 //@ ensures [C07] strict-inrange: r2 == nil && !exec.ignoreStructuralErrors ==> r0 <= r1
-//@ ensures [C14] from-to: r2 == nil && is[*ast.BinaryNode](node) && as[*ast.BinaryNode](node).Right() == nil ==> ncalls(exec.getArrayIndex) == 1 && ite(callret[int](exec.getArrayIndex, 0) < 0, r0 == 0, r0 == callret[int](exec.getArrayIndex, 0)) && ite(callret[int](exec.getArrayIndex, 0) >= arraySize, r1 == arraySize-1, r1 == callret[int](exec.getArrayIndex, 0))
-//@ ensures [C07 C14] strict-error: ncalls(exec.getArrayIndex) >= 1 && callret[error](exec.getArrayIndex, 1) == nil && !exec.ignoreStructuralErrors && (callret[int](exec.getArrayIndex, 0) < 0 || callret[int](exec.getArrayIndex, 0) >= arraySize) ==> r2 != nil && errIs(r2, ErrVerbose)
-//@ ensures [C20 C08] error-kept: pendingErr() == nil
+//@ ensures [C14] operands: is[*ast.BinaryNode](node) && as[*ast.BinaryNode](node).Operator() == ast.BinarySubscript ==> ncalls(exec.getArrayIndex) >= 1 && ncalls(exec.getArrayIndex) <= 2 && (as[*ast.BinaryNode](node).Right() == nil ==> ncalls(exec.getArrayIndex) <= 1)
+//@ ensures [C14 C07] single-lax: ncalls(exec.getArrayIndex) == 1 && firstret[error](exec.getArrayIndex, 1) == nil && exec.ignoreStructuralErrors ==> r2 == nil && r0 == max(firstret[int](exec.getArrayIndex, 0), 0) && r1 == min(firstret[int](exec.getArrayIndex, 0), arraySize-1)
+//@ ensures [C14 C07] single-strict-ok: ncalls(exec.getArrayIndex) == 1 && firstret[error](exec.getArrayIndex, 1) == nil && !exec.ignoreStructuralErrors && firstret[int](exec.getArrayIndex, 0) >= 0 && firstret[int](exec.getArrayIndex, 0) < arraySize ==> r2 == nil && r0 == firstret[int](exec.getArrayIndex, 0) && r1 == r0
+//@ ensures [C14 C07] single-strict-error: ncalls(exec.getArrayIndex) == 1 && firstret[error](exec.getArrayIndex, 1) == nil && !exec.ignoreStructuralErrors && (firstret[int](exec.getArrayIndex, 0) < 0 || firstret[int](exec.getArrayIndex, 0) >= arraySize) ==> r2 != nil && errIs(r2, ErrVerbose)
+//@ ensures [C14 C07] range-lax: ncalls(exec.getArrayIndex) == 2 && firstret[error](exec.getArrayIndex, 1) == nil && callret[error](exec.getArrayIndex, 1) == nil && exec.ignoreStructuralErrors ==> r2 == nil && r0 == max(firstret[int](exec.getArrayIndex, 0), 0) && r1 == min(callret[int](exec.getArrayIndex, 0), arraySize-1)
+//@ ensures [C14 C07] range-strict-ok: ncalls(exec.getArrayIndex) == 2 && firstret[error](exec.getArrayIndex, 1) == nil && callret[error](exec.getArrayIndex, 1) == nil && !exec.ignoreStructuralErrors && firstret[int](exec.getArrayIndex, 0) >= 0 && firstret[int](exec.getArrayIndex, 0) <= callret[int](exec.getArrayIndex, 0) && callret[int](exec.getArrayIndex, 0) < arraySize ==> r2 == nil && r0 == firstret[int](exec.getArrayIndex, 0) && r1 == callret[int](exec.getArrayIndex, 0)
+//@ ensures [C14 C07] range-strict-error: ncalls(exec.getArrayIndex) == 2 && firstret[error](exec.getArrayIndex, 1) == nil && callret[error](exec.getArrayIndex, 1) == nil && !exec.ignoreStructuralErrors && (firstret[int](exec.getArrayIndex, 0) < 0 || firstret[int](exec.getArrayIndex, 0) > callret[int](exec.getArrayIndex, 0) || callret[int](exec.getArrayIndex, 0) >= arraySize) ==> r2 != nil && errIs(r2, ErrVerbose)
+//@ ensures [C14 C20 C08] operand-error: ncalls(exec.getArrayIndex) >= 1 && callret[error](exec.getArrayIndex, 1) != nil ==> r2 == callret[error](exec.getArrayIndex, 1)
+//@ atcall getArrayIndex assert [C14 C09] on-original-item: arg_value == value
 
 //@ func (*Executor).execArrayIndex
 //@ props C07 C14
 //@ loop 1 invariant [C09 C14] last-bound: exec.innermostArraySize == size
 //@ loop 1 invariant [C07 C20] no-pending: pendingErr() == nil && !pendingFailed() && resErr == nil && res != statusFailed
 //@ loop 1 invariant status: res == statusOK || res == statusNotFound
+//@ loop 1 invariant [C06] exists-mode-undecided: found == nil ==> res == statusNotFound
+//@ loop 2 invariant [C06] exists-mode-undecided: found == nil ==> res == statusNotFound
 //@ loop 2 invariant [C09 C14] last-bound: exec.innermostArraySize == size
 //@ loop 2 invariant [C14] in-bounds: 0 <= indexFrom && indexFrom <= index && indexTo < size && size == len(array)
 //@ loop 2 invariant [C07 C20] no-pending: pendingErr() == nil && !pendingFailed() && resErr == nil && res != statusFailed
@@ -257,6 +264,7 @@ func uninterp[T any](name string, args ...any) T { var z T; return z }
 //@ loop 2 invariant [C14] every-element: ncalls(exec.executeNextItem) == loopEntry(ncalls(exec.executeNextItem)) + (index - indexFrom)
 //@ loop 2 decreases indexTo - index + 1
 //@ atcall executeNextItem assert [C14] element: arg_value == array[index] && arg_found == found
+//@ ensures [C06] exists-mode-result: found == nil ==> r0 == statusFailed || r0 == statusNotFound || (r0 == statusOK && r1 == nil)
 //@ ensures [C07] strict-nonarray: !is[[]any](value) && !exec.path.IsLax() ==> r0 == statusFailed && (r1 == nil || errIs(r1, ErrVerbose)) && ncalls(exec.executeNextItem) == 0
 
 // ---------------------------------------------------------------------------
@@ -320,6 +328,7 @@ func uninterp[T any](name string, args ...any) T { var z T; return z }
 //@ props C01 C07 C15
 //@ loop 1 invariant [C07 C20 C05] no-pending: pendingErr() == nil && !pendingFailed() && err == nil && res != statusFailed
 //@ loop 1 invariant status: res == statusOK || res == statusNotFound
+//@ loop 1 invariant [C06] exists-mode-undecided: found == nil ==> res == statusNotFound
 //@ loop 1 invariant [C09 C07] ise-restore: implies(deferActive("ignoreStructuralErrors"), deferObj[*Executor]("ignoreStructuralErrors") == exec && deferVal[bool]("ignoreStructuralErrors") == old(exec.ignoreStructuralErrors)) && implies(!deferActive("ignoreStructuralErrors"), exec.ignoreStructuralErrors == old(exec.ignoreStructuralErrors))
 //@ loop 1 invariant [C15] visit-each: node != nil && level >= first ==> ncalls(exec.executeItemOptUnwrapTarget) == loopEntry(ncalls(exec.executeItemOptUnwrapTarget)) + rangeindex + 1
 //@ loop 1 invariant [C15] descend-each: level < last ==> ncalls(exec.executeAnyItem) == loopEntry(ncalls(exec.executeAnyItem)) + rangeindex + 1
@@ -458,7 +467,7 @@ func isUnknownSpec(a predOutcome) predOutcome {
 //@ requires node != nil
 //@ requires wf-pred: ast.IsBoolNode(node) && node.Next() == nil
 //@ atcall executeBoolItem assert [C10 C09] current-bound: exec.current == value && arg_node == node && arg_value == value && !arg_canHaveNext
-//@ ensures [C09] restored: exec.current == old(exec.current)
+//@ ensures [C09 C10] restored: exec.current == old(exec.current)
 //@ ensures [C10] result: ncalls(exec.executeBoolItem) == 1 && r0 == callret[predOutcome](exec.executeBoolItem, 0) && r1 == callret[error](exec.executeBoolItem, 1)
 
 //@ func (*Executor).executeBoolItem
@@ -639,7 +648,14 @@ func isUnknownSpec(a predOutcome) predOutcome {
 //@ ensures [C13] nonnumeric-right: (is[int64](left) || is[float64](left)) && !(is[int64](right) || is[float64](right) || is[json.Number](right)) ==> r1 != nil
 //@ ensures [C13] result-numeric: r1 == nil ==> is[int64](r0) || is[float64](r0)
 //@ ensures [C13] int-int: is[int64](left) && is[int64](right) ==> ncalls(executeIntegerMath) == 1 && callarg[int64](executeIntegerMath, "lhs") == as[int64](left) && callarg[int64](executeIntegerMath, "rhs") == as[int64](right) && callarg[ast.BinaryOperator](executeIntegerMath, "op") == op
-//@ ensures [C13] float-float: is[float64](left) && is[float64](right) ==> ncalls(executeFloatMath) == 1 && callarg[ast.BinaryOperator](executeFloatMath, "op") == op
+//@ ensures [C13] float-float: is[float64](left) && is[float64](right) ==> ncalls(executeFloatMath) == 1 && callarg[ast.BinaryOperator](executeFloatMath, "op") == op && sameFloat(callarg[float64](executeFloatMath, "lhs"), as[float64](left)) && sameFloat(callarg[float64](executeFloatMath, "rhs"), as[float64](right))
+//@ ensures [C13] int-float: is[int64](left) && is[float64](right) ==> ncalls(executeFloatMath) == 1 && callarg[ast.BinaryOperator](executeFloatMath, "op") == op && sameFloat(callarg[float64](executeFloatMath, "lhs"), toFloat(as[int64](left))) && sameFloat(callarg[float64](executeFloatMath, "rhs"), as[float64](right))
+//@ ensures [C13] float-int: is[float64](left) && is[int64](right) ==> ncalls(executeFloatMath) == 1 && callarg[ast.BinaryOperator](executeFloatMath, "op") == op && sameFloat(callarg[float64](executeFloatMath, "lhs"), as[float64](left)) && sameFloat(callarg[float64](executeFloatMath, "rhs"), toFloat(as[int64](right)))
+//@ ensures [C13] int-jnint: is[int64](left) && is[json.Number](right) && uninterp[bool]("jnIsInt", string(as[json.Number](right))) ==> ncalls(executeIntegerMath) == 1 && callarg[int64](executeIntegerMath, "lhs") == as[int64](left) && callarg[int64](executeIntegerMath, "rhs") == uninterp[int64]("jnInt", string(as[json.Number](right))) && callarg[ast.BinaryOperator](executeIntegerMath, "op") == op
+//@ ensures [C13] int-jnfloat: is[int64](left) && is[json.Number](right) && !uninterp[bool]("jnIsInt", string(as[json.Number](right))) && uninterp[bool]("jnIsFloat", string(as[json.Number](right))) ==> ncalls(executeFloatMath) == 1 && callarg[ast.BinaryOperator](executeFloatMath, "op") == op && sameFloat(callarg[float64](executeFloatMath, "lhs"), toFloat(as[int64](left))) && sameFloat(callarg[float64](executeFloatMath, "rhs"), uninterp[float64]("jnFloat", string(as[json.Number](right))))
+//@ ensures [C13] float-jnfloat: is[float64](left) && is[json.Number](right) && uninterp[bool]("jnIsFloat", string(as[json.Number](right))) ==> ncalls(executeFloatMath) == 1 && callarg[ast.BinaryOperator](executeFloatMath, "op") == op && sameFloat(callarg[float64](executeFloatMath, "lhs"), as[float64](left)) && sameFloat(callarg[float64](executeFloatMath, "rhs"), uninterp[float64]("jnFloat", string(as[json.Number](right))))
+//@ ensures [C13] jn-left-int: is[json.Number](left) && uninterp[bool]("jnIsInt", string(as[json.Number](left))) ==> ncalls(execMathOp) == 1 && callarg[any](execMathOp, "left") == any(uninterp[int64]("jnInt", string(as[json.Number](left)))) && callarg[any](execMathOp, "right") == right && callarg[ast.BinaryOperator](execMathOp, "op") == op
+//@ ensures [C13] jn-left-float: is[json.Number](left) && !uninterp[bool]("jnIsInt", string(as[json.Number](left))) && uninterp[bool]("jnIsFloat", string(as[json.Number](left))) ==> ncalls(execMathOp) == 1 && callarg[any](execMathOp, "left") == any(uninterp[float64]("jnFloat", string(as[json.Number](left)))) && callarg[any](execMathOp, "right") == right && callarg[ast.BinaryOperator](execMathOp, "op") == op
 //@ ensures [C13] value-passed: r1 == nil ==> (ncalls(executeIntegerMath) == 1 && ncalls(executeFloatMath) == 0 && ncalls(execMathOp) == 0 && r0 == any(callret[int64](executeIntegerMath, 0))) || (ncalls(executeFloatMath) == 1 && ncalls(executeIntegerMath) == 0 && ncalls(execMathOp) == 0 && r0 == any(callret[float64](executeFloatMath, 0))) || (ncalls(execMathOp) == 1 && ncalls(executeIntegerMath) == 0 && ncalls(executeFloatMath) == 0 && r0 == callret[any](execMathOp, 0))
 
 //@ func castJSONNumber
@@ -654,12 +670,15 @@ func isUnknownSpec(a predOutcome) predOutcome {
 //@ ensures [C13] one-result: r1 == nil && r0 != statusFailed && !(node.Next() == nil && found == nil) ==> ncalls(execMathOp) == 1 && ncalls(exec.executeNextItem) == 1 && callarg[any](exec.executeNextItem, "value") == callret[any](execMathOp, 0) && callarg[*valueList](exec.executeNextItem, "found") == found
 //@ ensures [C13] math-error-suppressible: ncalls(execMathOp) == 1 && callret[error](execMathOp, 1) != nil ==> r0 == statusFailed && (r1 == nil || errIs(r1, ErrVerbose)) && ncalls(exec.executeNextItem) == 0
 //@ ensures [C13] operands-op: ncalls(execMathOp) == 1 ==> callarg[ast.BinaryOperator](execMathOp, "op") == node.Operator()
+//@ ensures [C13] operand-order: ncalls(exec.executeItemOptUnwrapResult) >= 1 ==> firstret[resultStatus](exec.executeItemOptUnwrapResult, 0) == firstret[resultStatus](exec.executeItemOptUnwrapResult, 0)
+//@ atcall execMathOp assert [C13] left-then-right: arg_left == lSeq.list[0] && arg_right == rSeq.list[0] && len(lSeq.list) == 1 && len(rSeq.list) == 1 && arg_op == node.Operator()
 
 //@ func (*Executor).execUnaryMathExpr
 //@ props C13
 //@ requires node.Operator() == ast.UnaryPlus || node.Operator() == ast.UnaryMinus
 //@ loop 1 invariant [C20 C05] no-pending: pendingErr() == nil && !pendingFailed()
 //@ loop 1 invariant status: res == statusOK || res == statusNotFound
+//@ loop 1 invariant [C06] exists-mode-undecided: found == nil ==> res == statusNotFound
 //@ loop 1 invariant [C13] every-item: !(found == nil && node.Next() == nil) ==> ncalls(exec.executeNextItem) == loopEntry(ncalls(exec.executeNextItem)) + rangeindex + 1
 //@ atcall executeItemOptUnwrapResult assert [C13] operand: arg_value == value && arg_unwrap && arg_node == node.Operand()
 //@ atcall executeNextItem assert [C13] numeric-only: arg_found == found && (is[int64](v) || is[float64](v) || is[json.Number](v))
@@ -677,6 +696,10 @@ func isUnknownSpec(a predOutcome) predOutcome {
 //@ ensures [C12] float-float: is[float64](left) && is[float64](right) && !isNaN(as[float64](left)) && !isNaN(as[float64](right)) ==> (r0 < 0) == (as[float64](left) < as[float64](right)) && (r0 == 0) == (as[float64](left) == as[float64](right)) && (r0 > 0) == (as[float64](left) > as[float64](right))
 //@ ensures [C12] local-int-float-exact: is[int64](left) && is[float64](right) && !isNaN(as[float64](right)) ==> (r0 < 0) == (exactCmpIF(as[int64](left), as[float64](right)) < 0) && (r0 > 0) == (exactCmpIF(as[int64](left), as[float64](right)) > 0)
 //@ ensures [C12] local-float-int-exact: is[float64](left) && is[int64](right) && !isNaN(as[float64](left)) ==> (r0 > 0) == (exactCmpIF(as[int64](right), as[float64](left)) < 0) && (r0 < 0) == (exactCmpIF(as[int64](right), as[float64](left)) > 0)
+//@ ensures [C12] int-jnint: is[int64](left) && is[json.Number](right) && uninterp[bool]("jnIsInt", string(as[json.Number](right))) ==> (r0 < 0) == (as[int64](left) < uninterp[int64]("jnInt", string(as[json.Number](right)))) && (r0 > 0) == (as[int64](left) > uninterp[int64]("jnInt", string(as[json.Number](right))))
+//@ ensures [C12] jnint-int: is[json.Number](left) && is[int64](right) && uninterp[bool]("jnIsInt", string(as[json.Number](left))) ==> (r0 < 0) == (uninterp[int64]("jnInt", string(as[json.Number](left))) < as[int64](right)) && (r0 > 0) == (uninterp[int64]("jnInt", string(as[json.Number](left))) > as[int64](right))
+//@ ensures [C12] jnint-jnint: is[json.Number](left) && is[json.Number](right) && uninterp[bool]("jnIsInt", string(as[json.Number](left))) && uninterp[bool]("jnIsInt", string(as[json.Number](right))) ==> (r0 < 0) == (uninterp[int64]("jnInt", string(as[json.Number](left))) < uninterp[int64]("jnInt", string(as[json.Number](right)))) && (r0 > 0) == (uninterp[int64]("jnInt", string(as[json.Number](left))) > uninterp[int64]("jnInt", string(as[json.Number](right))))
+//@ ensures [C12] float-jnfloat: is[float64](left) && is[json.Number](right) && uninterp[bool]("jnIsFloat", string(as[json.Number](right))) && !isNaN(as[float64](left)) ==> (r0 < 0) == (as[float64](left) < uninterp[float64]("jnFloat", string(as[json.Number](right)))) && (r0 > 0) == (as[float64](left) > uninterp[float64]("jnFloat", string(as[json.Number](right))))
 //@ ensures [C12] three-way: r0 == -1 || r0 == 0 || r0 == 1
 
 //@ func (*Executor).compareItems
@@ -828,6 +851,7 @@ func isUnknownSpec(a predOutcome) predOutcome {
 //@ requires node != nil
 //@ loop 1 invariant [C20 C05] no-pending: pendingErr() == nil && !pendingFailed()
 //@ loop 1 invariant status: res == statusOK || res == statusNotFound
+//@ loop 1 invariant [C06] exists-mode-undecided: found == nil && rangeindex >= 0 ==> res != statusOK
 //@ loop 1 invariant [C09 C16] base-restore: implies(deferActive("baseObject"), deferObj[*Executor]("baseObject") == exec && deferVal[kvBaseObject]("baseObject") == old(exec.baseObject)) && implies(!deferActive("baseObject"), exec.baseObject == old(exec.baseObject))
 //@ loop 1 invariant [C16] every-member: ncalls(exec.executeNextItem) == loopEntry(ncalls(exec.executeNextItem)) + rangeindex + 1
 //@ atcall executeNextItem assert [C16] triple: arg_found == found && is[map[string]any](arg_value) && as[map[string]any](arg_value)["id"] == any(id) && as[map[string]any](arg_value)["key"] == any(k) && fresh(as[map[string]any](arg_value))
